@@ -1,5 +1,294 @@
 import OasisModel.Proto
-/- C05/C08/C10 staking ledger: driver stub (not built yet). -/
+import OasisModel.Staking.Ledger
+/-
+Driver for the staking ledger model (mode `ledger`, executable `om_ledger`), properties C05 / C15.
+
+The Go driver (harness/cmd/ledgerdrv) runs the REAL staking application on the mock application
+state, one operation per line with the implementation's result appended, and after every operation
+a `dump` line with the complete real ledger.  The model
+  * replays the operation and compares result kind and, on `dump`, the whole state (DIVERGE), and
+  * evaluates the conservation invariant `Ledger.invB` and the supply rule (total changes only by
+    the amount of a successful burn) directly on the dumped real state, independent of the model (SPEC).
+
+  genesis n=<n> k=v ...            parameters and singleton balances (see `parseGenesis`)
+  acct i general nonce aB aTS dB dTS commission(-|rate) allowances(-|j:amt,...)
+  del e d shares | deb epoch d e shares
+  init ok|fatal                    run InitChain
+  tx signer nonce fee <body> ok|err:<kind>
+       body: transfer dst amt | burn amt | escrow e amt | reclaim e shares | allow b neg change | withdraw src amt
+  epoch e
+  begin proposer(-|i) numEligible voters(-|list) evidence(-|list) ok|fatal
+  end ok|fatal
+  slash a amount r | tfc dst amount escrow(0|1) r | addrewards epoch factor addrs r
+  govdep src amount r | govref dst amount r | govdisc amount r
+  dump total common gov lbf feeacc sigTotal  A i general nonce aB aTS dB dTS allow ... D e d s ... Q ep d e s ... S ent count ...
+-/
 namespace OasisModel.Staking.LedgerDriver
-def main : IO Unit := IO.eprintln "mode not implemented"
+open OasisModel OasisModel.Proto OasisModel.Staking OasisModel.Staking.Ledger
+
+def emptyLedger : Ledger :=
+  { n := 0, acct := fun _ => {}, del := fun _ _ => 0, deb := [], common := 0, govDeposits := 0,
+    lastBlockFees := 0, feeAcc := 0, totalSupply := 0, params := {} }
+
+structure St where
+  l : Ledger := emptyLedger
+  /-- total supply in the previous dump of the implementation (for the supply rule) -/
+  prevTotal : Option Nat := none
+  /-- amount burned by the implementation since the previous dump (from op + implementation result) -/
+  implBurned : Nat := 0
+  dead : Bool := false
+
+def kvs (ws : List String) : List (String × String) :=
+  ws.filterMap (fun w => match w.splitOn "=" with
+    | [k, v] => some (k, v)
+    | _ => none)
+
+def getNat (kv : List (String × String)) (k : String) (d : Nat := 0) : Nat :=
+  match kv.find? (·.1 == k) with
+  | some (_, v) => v.toNat?.getD d
+  | none => d
+
+def getList (kv : List (String × String)) (k : String) : List Nat :=
+  match kv.find? (·.1 == k) with
+  | some (_, v) => (parseNats v).getD []
+  | none => []
+
+def parsePairs (s : String) : List (Nat × Nat) :=
+  if s == "-" then [] else
+  (s.splitOn ",").filterMap (fun p => match p.splitOn ":" with
+    | [a, b] => match a.toNat?, b.toNat? with
+      | some a, some b => some (a, b)
+      | _, _ => none
+    | _ => none)
+
+def parseGenesis (ws : List String) : Ledger :=
+  let kv := kvs ws
+  let sched := match kv.find? (·.1 == "sched") with
+    | some (_, v) => parsePairs v
+    | none => []
+  let p : Params := {
+    minTransactBalance := getNat kv "mtb", minTransferAmount := getNat kv "mta",
+    minDelegationAmount := getNat kv "mda", debondingInterval := getNat kv "debint",
+    maxAllowances := getNat kv "maxallow", disableTransfers := getNat kv "disT" == 1,
+    disableDelegation := getNat kv "disD" == 1, feeWeightPropose := getNat kv "wP",
+    feeWeightVote := getNat kv "wV", feeWeightNextPropose := getNat kv "wN",
+    rewardSchedule := sched, rewardFactorEpochSigned := getNat kv "rfS",
+    rewardFactorBlockProposed := getNat kv "rfP", signingThresholdNum := getNat kv "thrN",
+    signingThresholdDen := getNat kv "thrD", minCommissionRate := getNat kv "mincom",
+    slashAmount := getNat kv "slash", freezeInterval := getNat kv "freeze",
+    burnAddr := getNat kv "burn", reserved := getList kv "reserved", pkOrder := getList kv "pkorder",
+    validators := getList kv "validators" }
+  { emptyLedger with
+    n := getNat kv "n", common := getNat kv "common", govDeposits := getNat kv "gov",
+    lastBlockFees := getNat kv "lbf", totalSupply := getNat kv "total", epoch := getNat kv "epoch", params := p }
+
+def optNat (s : String) : Option (Option Nat) :=
+  if s == "-" then some none else s.toNat?.map some
+
+/-- Re-tabulate the function-valued fields so that lookups do not walk through the whole update history. -/
+def compact (l : Ledger) : Ledger :=
+  let accts := (List.range l.n).map l.acct |>.toArray
+  let dels := (List.range l.n).map (fun e => ((List.range l.n).map (l.del e)).toArray) |>.toArray
+  let sig := (List.range l.n).map l.sigBy |>.toArray
+  let fr := (List.range l.params.validators.length).map l.frozen |>.toArray
+  { l with acct := fun i => accts.getD i {},
+           del := fun e d => (dels.getD e #[]).getD d 0,
+           sigBy := fun i => sig.getD i 0,
+           frozen := fun v => fr.getD v false }
+
+def showErr : Option LErr → String
+  | none => "ok"
+  | some e => "err:" ++ e.toString
+
+def parseBody (ws : List String) : Option TxBody :=
+  match ws with
+  | ["transfer", d, a] => do pure (.transfer (← d.toNat?) (← a.toNat?))
+  | ["burn", a] => do pure (.burn (← a.toNat?))
+  | ["escrow", e, a] => do pure (.addEscrow (← e.toNat?) (← a.toNat?))
+  | ["reclaim", e, s] => do pure (.reclaimEscrow (← e.toNat?) (← s.toNat?))
+  | ["allow", b, neg, c] => do pure (.allow (← b.toNat?) (neg == "1") (← c.toNat?))
+  | ["withdraw", s, a] => do pure (.withdraw (← s.toNat?) (← a.toNat?))
+  | _ => none
+
+/-- Amount a *successful* transaction burns (from the operation text alone). -/
+def burnOf (l : Ledger) : TxBody → Nat
+  | .burn a => a
+  | .transfer d a => if d = l.params.burnAddr then a else 0
+  | _ => 0
+
+/-- Parse the flat record list of a dump into a ledger carrying the observed values. -/
+partial def parseRecords (l : Ledger) : List String → Option Ledger
+  | [] => some l
+  | "A" :: i :: g :: nn :: ab :: ats :: db :: dts :: al :: rest =>
+    match nats [i, g, nn, ab, ats, db, dts] with
+    | some [i, g, nn, ab, ats, db, dts] =>
+      let a : Account := {
+        general := g, nonce := nn, allowances := parsePairs al,
+        active := { balance := ab, totalShares := ats }, debonding := { balance := db, totalShares := dts },
+        commission := (l.acct i).commission }
+      parseRecords (l.setAcct i a) rest
+    | _ => none
+  | "D" :: e :: d :: s :: rest =>
+    match nats [e, d, s] with
+    | some [e, d, s] => parseRecords (l.setDel e d s) rest
+    | _ => none
+  | "Q" :: ep :: d :: e :: s :: rest =>
+    match nats [ep, d, e, s] with
+    | some [ep, d, e, s] => parseRecords { l with deb := l.deb ++ [{ endEpoch := ep, delegator := d, escrow := e, shares := s }] } rest
+    | _ => none
+  | "S" :: e :: c :: rest =>
+    match nats [e, c] with
+    | some [e, c] => parseRecords { l with sigBy := upd l.sigBy e c } rest
+    | _ => none
+  | _ => none
+where nats (ws : List String) : Option (List Nat) := ws.mapM String.toNat?
+
+def sortAllow (al : List (Nat × Nat)) : List (Nat × Nat) := al.mergeSort (fun a b => a.1 ≤ b.1)
+
+/-- First difference between the model ledger and the observed one. -/
+def diff (m o : Ledger) : Option String :=
+  if m.totalSupply != o.totalSupply then some s!"totalSupply model={m.totalSupply} impl={o.totalSupply}"
+  else if m.common != o.common then some s!"commonPool model={m.common} impl={o.common}"
+  else if m.govDeposits != o.govDeposits then some s!"governanceDeposits model={m.govDeposits} impl={o.govDeposits}"
+  else if m.lastBlockFees != o.lastBlockFees then some s!"lastBlockFees model={m.lastBlockFees} impl={o.lastBlockFees}"
+  else if m.feeAcc != o.feeAcc then some s!"feeAccumulator model={m.feeAcc} impl={o.feeAcc}"
+  else if m.sigTotal != o.sigTotal then some s!"epochSigning.total model={m.sigTotal} impl={o.sigTotal}"
+  else
+    let accts := (List.range m.n).filterMap (fun i =>
+      let a := m.acct i
+      let b := o.acct i
+      if a.general != b.general then some s!"account {i} general model={a.general} impl={b.general}"
+      else if a.nonce != b.nonce then some s!"account {i} nonce model={a.nonce} impl={b.nonce}"
+      else if a.active != b.active then some s!"account {i} active pool model=({a.active.balance},{a.active.totalShares}) impl=({b.active.balance},{b.active.totalShares})"
+      else if a.debonding != b.debonding then some s!"account {i} debonding pool model=({a.debonding.balance},{a.debonding.totalShares}) impl=({b.debonding.balance},{b.debonding.totalShares})"
+      else if sortAllow a.allowances != sortAllow b.allowances then some s!"account {i} allowances model={sortAllow a.allowances} impl={sortAllow b.allowances}"
+      else if m.sigBy i != o.sigBy i then some s!"epochSigning[{i}] model={m.sigBy i} impl={o.sigBy i}"
+      else none)
+    match accts with
+    | d :: _ => some d
+    | [] =>
+      let dels := (List.range m.n).flatMap (fun e => (List.range m.n).filterMap (fun d =>
+        if m.del e d != o.del e d then some s!"delegation escrow={e} delegator={d} model={m.del e d} impl={o.del e d}" else none))
+      match dels with
+      | d :: _ => some d
+      | [] =>
+        if m.deb != o.deb then
+          let sh (q : List DebEntry) := q.map (fun e => (e.endEpoch, e.delegator, e.escrow, e.shares))
+          some s!"debonding queue model={sh m.deb} impl={sh o.deb}"
+        else none
+
+def resOf (r : Except LErr Ledger) : String :=
+  match r with
+  | .ok _ => "ok"
+  | .error .fatal => "fatal"
+  | .error e => "err:" ++ e.toString
+
+def step (st : St) (line : String) : St × String :=
+  if st.dead then (st, "skip") else
+  let fail (msg : String) : St × String := ({ st with dead := true }, msg)
+  let l := st.l
+  /- block-level and direct state operations: compare the result kind, keep the new state on success -/
+  let direct (r : Except LErr Ledger) (impl : String) : St × String :=
+    if resOf r != impl then fail s!"DIVERGE result model={resOf r} impl={impl}"
+    else match r with
+      | .ok l' => ({ st with l := compact l' }, "ok")
+      | .error _ => (st, "ok")
+  let ws := words line
+  match ws with
+  | [] => (st, "ok")
+  | "genesis" :: rest => ({ l := parseGenesis rest }, "ok")
+  | ["acct", i, g, nn, ab, ats, db, dts, com, al] =>
+    match [i, g, nn, ab, ats, db, dts].mapM String.toNat?, optNat com with
+    | some [i, g, nn, ab, ats, db, dts], some com =>
+      let a : Account := {
+        general := g, nonce := nn, allowances := parsePairs al,
+        active := { balance := ab, totalShares := ats }, debonding := { balance := db, totalShares := dts },
+        commission := com }
+      ({ st with l := l.setAcct i a }, "ok")
+    | _, _ => fail "DIVERGE bad-op"
+  | ["del", e, d, s] =>
+    match [e, d, s].mapM String.toNat? with
+    | some [e, d, s] => ({ st with l := l.setDel e d s }, "ok")
+    | _ => fail "DIVERGE bad-op"
+  | ["deb", ep, d, e, s] =>
+    match [ep, d, e, s].mapM String.toNat? with
+    | some [ep, d, e, s] =>
+      ({ st with l := { l with deb := DebSt.enqueue l.deb { endEpoch := ep, delegator := d, escrow := e, shares := s } } }, "ok")
+    | _ => fail "DIVERGE bad-op"
+  | ["init", impl] => direct (genesis l) impl
+  | "tx" :: signer :: nonce :: fee :: rest =>
+    match signer.toNat?, nonce.toNat?, fee.toNat?, rest.getLast?, parseBody rest.dropLast with
+    | some signer, some nonce, some fee, some impl, some body =>
+      let (l', e) := applyTx l signer nonce fee body
+      if showErr e != impl then fail s!"DIVERGE tx result model={showErr e} impl={impl}"
+      else ({ st with l := compact l', implBurned := st.implBurned + (if impl == "ok" then burnOf l body else 0) }, "ok")
+    | _, _, _, _, _ => fail "DIVERGE bad-op"
+  | ["epoch", e] =>
+    match e.toNat? with
+    | some e => ({ st with l := setEpoch l e }, "ok")
+    | none => fail "DIVERGE bad-op"
+  | ["begin", p, ne, voters, evidence, impl] =>
+    match optNat p, ne.toNat?, parseNats voters, parseNats evidence with
+    | some p, some ne, some voters, some evidence =>
+      -- proposer and voters are given as validator numbers; BeginBlock resolves them to entities
+      let ent (v : Nat) : Option Nat := l.params.validators[v]?
+      direct (beginBlock l (p.bind ent) ne (voters.filterMap ent) evidence) impl
+    | _, _, _, _ => fail "DIVERGE bad-op"
+  | ["end", impl] => direct (endBlock l) impl
+  | ["slash", a, amount, impl] =>
+    match a.toNat?, amount.toNat? with
+    | some a, some amount => direct (slashEscrowL l a amount) impl
+    | _, _ => fail "DIVERGE bad-op"
+  | ["tfc", d, amount, esc, impl] =>
+    match d.toNat?, amount.toNat? with
+    | some d, some amount => direct (transferFromCommon l d amount (esc == "1")) impl
+    | _, _ => fail "DIVERGE bad-op"
+  | ["addrewards", ep, factor, addrs, impl] =>
+    match ep.toNat?, factor.toNat?, parseNats addrs with
+    | some ep, some factor, some addrs => direct (addRewards l ep factor addrs) impl
+    | _, _, _ => fail "DIVERGE bad-op"
+  | ["govdep", a, amount, impl] =>
+    match a.toNat?, amount.toNat? with
+    | some a, some amount => direct (govDeposit l a amount) impl
+    | _, _ => fail "DIVERGE bad-op"
+  | ["govref", a, amount, impl] =>
+    match a.toNat?, amount.toNat? with
+    | some a, some amount => direct (govRefund l a amount) impl
+    | _, _ => fail "DIVERGE bad-op"
+  | ["govdisc", amount, impl] =>
+    match amount.toNat? with
+    | some amount => direct (govDiscard l amount) impl
+    | none => fail "DIVERGE bad-op"
+  | "dump" :: t :: c :: g :: lbf :: fa :: sgt :: recs =>
+    match [t, c, g, lbf, fa, sgt].mapM String.toNat? with
+    | some [t, c, g, lbf, fa, sgt] =>
+      let base : Ledger := { l with
+        acct := fun i => { commission := (l.acct i).commission }, del := fun _ _ => 0, deb := [],
+        sigBy := fun _ => 0, totalSupply := t, common := c, govDeposits := g,
+        lastBlockFees := lbf, feeAcc := fa, sigTotal := sgt }
+      match parseRecords base recs with
+      | none => fail "DIVERGE bad-dump"
+      | some o =>
+        let o := compact o
+        -- spec-on-implementation, independent of the model's own state (only the ghost flag
+        -- `lbfSpent`, set between BeginBlock and EndBlock, is taken from the model)
+        if !(supplyOk o) then
+          fail s!"SPEC supply equation violated on the real ledger: total={o.totalSupply} accounts={accountsTotal o} common={o.common} gov={o.govDeposits} lastBlockFees={o.lastBlockFees}(spent={o.lbfSpent}) feeAcc={o.feeAcc}"
+        else if !(sharesOk o) then fail "SPEC share bookkeeping violated on the real ledger: a pool's total shares differ from the sum of its delegations"
+        else if !(scopeOk o) then fail "SPEC debonding entry for an unknown account"
+        else match st.prevTotal with
+          | some pt =>
+            if o.totalSupply + st.implBurned != pt then
+              fail s!"SPEC total supply changed from {pt} to {o.totalSupply} while {st.implBurned} was burned"
+            else match diff l o with
+              | some d => fail ("DIVERGE " ++ d)
+              | none => ({ st with prevTotal := some o.totalSupply, implBurned := 0 }, "ok")
+          | none => match diff l o with
+              | some d => fail ("DIVERGE " ++ d)
+              | none => ({ st with prevTotal := some o.totalSupply, implBurned := 0 }, "ok")
+    | _ => fail "DIVERGE bad-dump"
+  | _ => fail ("DIVERGE bad-op " ++ line.trimAscii.toString)
+
+def main : IO Unit := loop step {}
+
 end OasisModel.Staking.LedgerDriver
